@@ -1185,8 +1185,13 @@ fn q_publish(
             if unknown.len() == 1 {
                 lk(&sh.st).systems[inst].cmd = SystemCommand(unknown[0]);
                 sh.push(Ev::SysCreated { inst, ent: ebits(unknown[0]), kind, flavour, script });
+            } else if unknown.is_empty() {
+                // The reactor is already gone: a ref-counted reactor without an effective trigger may be collected as soon
+                // as its registration has been applied (C07 only says "by the first collection"). It is recorded as an
+                // instance that was never seen alive; the lifetime and dispatch monitors judge whether that was right.
+                sh.push(Ev::SysCreated { inst, ent: u64::MAX, kind, flavour, script });
             } else {
-                panic!("ReactCommands::on left {} unknown system-command entities (expected exactly 1) for instance {inst}", unknown.len());
+                panic!("ReactCommands::on left {} unknown system-command entities (expected at most 1) for instance {inst}", unknown.len());
             }
         }
         let note = {
